@@ -472,7 +472,7 @@ def main(tier):
         return run.finish("loop/recursion obligations", "./check C02 --tier %s" % tier)
     from ..canary import loop_canary
     loop_canary(run)
-    reach = F.reach()
+    reach = F.scope()
     kmax = []
     counts = defaultdict(int)
     scc_sizes = []
